@@ -11,7 +11,10 @@ Canonical order: ready tasks are sorted by a structural label (function name, bl
 dependencies) which does not contain the random uuid4 parts of Dask key names, so a recorded choice sequence means the
 same schedule in every run.
 """
+import itertools
 import operator
+import re
+import uuid as _uuid
 from collections.abc import Mapping
 
 import cloudpickle
@@ -22,6 +25,32 @@ from dask.utils import key_split
 
 class ScheduleDivergence(RuntimeError):
     pass
+
+
+# Dask names non-pure delayed objects "<function>-<uuid4>". The uuid4 source is replaced by a counter so that
+# (a) key names never depend on os.urandom and (b) structurally identical tasks (equal labels) can be ordered by
+# creation order, which is program order and therefore the same in every run.
+_MARK = 0x5CED5CED
+_COUNTER = itertools.count(1)
+_UUID_RE = re.compile(r"([0-9a-f]{8}-[0-9a-f]{4}-[0-9a-f]{4}-[0-9a-f]{4}-[0-9a-f]{12}|[0-9a-f]{32})$")
+
+
+def _det_uuid4():
+    return _uuid.UUID(int=(_MARK << 96) | next(_COUNTER), version=4)
+
+
+_uuid.uuid4 = _det_uuid4
+
+
+def _tiebreak(key):
+    name = key[0] if isinstance(key, tuple) else key
+    if isinstance(name, str):
+        m = _UUID_RE.search(name)
+        if m:
+            v = int(m.group(1).replace("-", ""), 16)
+            if v >> 96 == _MARK:
+                return (0, v & ((1 << 48) - 1), "")
+    return (1, 0, repr(key))
 
 
 def _is_library(task):
@@ -114,10 +143,10 @@ class Controller:
             # resolve code-free nodes and (unless branching on everything) infrastructure tasks eagerly, canonical order
             eager = [k for k in ready if not isinstance(graph[k], Task) or not (self.branch_all or _is_library(graph[k]))]
             if eager:
-                eager.sort(key=lambda k: self._label(k, graph, memo))
+                eager.sort(key=lambda k: (self._label(k, graph, memo), _tiebreak(k)))
                 k = eager[0]
             else:
-                ready.sort(key=lambda k: self._label(k, graph, memo))
+                ready.sort(key=lambda k: (self._label(k, graph, memo), _tiebreak(k)))
                 self.max_ready = max(self.max_ready, len(ready))
                 k = ready[self._choose(len(ready))] if len(ready) > 1 else ready[0]
                 self.log.append(repr(self._label(k, graph, memo)[:3]))
